@@ -280,8 +280,7 @@ bool exec_spline(ExecCtx &c) {
               h = hmix(f.bits(), b.bits());
             });
             out.obs = hmix(out.obs, h);
-            bool injected = fault_fired() && is_injected_status(out.status);
-            if (!has && out.status != ST_BSPLINE && !injected)
+            if (!has && out.status == ST_OK)
               add_violation(c, "C09", "checked-accessor-no-throw",
                             "Spline::front()/back() of an empty spline did not throw", "Spline::front/back");
           },
